@@ -12,9 +12,10 @@ from xml.sax.saxutils import escape, quoteattr
 
 import lxml.etree as LE
 
-NS_POOL = {'p1': 'urn:a', 'p2': 'urn:b', 'd': 'urn:d'}
+# p3's URI extends p1's: a wildcard test that compares URIs by prefix confuses the two
+NS_POOL = {'p1': 'urn:a', 'p2': 'urn:b', 'p3': 'urn:ab', 'd': 'urn:d'}
 TAGS = ['a', 'b', 'c', 'x']
-PI_TARGETS = ['pi', 'tgt', 'exp', 'map', 'text', 'if', 'xml-stylesheet', 'node', 'item']
+PI_TARGETS = ['pi', 'tgt', 'exp', 'map', 'text', 'if', 'xml-stylesheet', 'node', 'item', 'a', 'b']   # 'a', 'b' are element tags too
 TEXTS = ['t', 'u', 'tt', ' ', 'x y', '1', '42', 'a&b', '<', "q'\"", '\n ', 'é', '\U0001F600z']
 
 
@@ -36,7 +37,7 @@ def gen_doc(r, max_nodes=40, max_depth=5, ns=True, misc=True, doc_misc=True, pi_
         decl = []
         scope = dict(inherited)
         if ns and r.random() < 0.25:
-            for pfx in r.sample(['p1', 'p2', ''], r.randint(1, 2)):
+            for pfx in r.sample(['p1', 'p2', 'p3', ''], r.randint(1, 2)):
                 uri = NS_POOL['d'] if pfx == '' else NS_POOL[pfx]
                 if scope.get(pfx) != uri and not (uri == '' and not scope.get(pfx)):
                     decl.append([pfx, uri])
@@ -60,6 +61,8 @@ def gen_doc(r, max_nodes=40, max_depth=5, ns=True, misc=True, doc_misc=True, pi_
             else:
                 if ns and scope.get('p1') and r.random() < 0.4:
                     attrs.append(['{%s}q' % scope['p1'], r.choice(['1', 'v'])])
+                elif ns and scope.get('p3') and r.random() < 0.4:
+                    attrs.append(['{%s}q' % scope['p3'], r.choice(['1', 'v'])])
                 else:
                     attrs.append(['q', r.choice(['1', 'v', 'w'])])
         children = []
